@@ -1265,6 +1265,8 @@ func main() {
 		ran++
 		cr.mu.Lock()
 		if cr.built {
+			// listed by increasing end stamp (TxnSer.tla checks the order, it does not trust it)
+			sort.SliceStable(cr.items, func(i, j int) bool { return cr.items[i]["t"].(int64) < cr.items[j]["t"].(int64) })
 			enc(hw, cr.header())
 			for _, it := range cr.items {
 				enc(hw, it)
